@@ -53,6 +53,7 @@ type Spec struct {
 	Tasks   [][]Op          `json:"tasks"`
 	Sched   Sched           `json:"sched"`
 	Faults  json.RawMessage `json:"faults"`
+	Flood   int             `json:"flood,omitempty"`
 }
 
 type Case struct {
